@@ -219,11 +219,17 @@ def build_resource(ctx, script, stack):
     def deco(kind, hid):
         return falcon.before(before_hook, hid) if kind == 'before' else falcon.after(after_hook, hid)
 
-    on_get = responder('on_get')
+    fns = {'on_get': responder('on_get'), 'on_get_f': responder('on_get_f'),
+           'on_get_items': responder('on_get_items')}
     for kind, hid in reversed(list(script.get('hooks_method', ()))):      # innermost applied first
-        on_get = deco(kind, hid)(on_get)
-    cls = type('Res', (), {'on_get': on_get, 'on_get_f': responder('on_get_f'),
-                           'on_get_items': responder('on_get_items')})
+        fns['on_get'] = deco(kind, hid)(fns['on_get'])
+    inherit = set(script.get('inherit', ()))
+    # responders named in 'inherit' live on a base class (optionally with class-level hooks of its own);
+    # the routed class defines the others itself and carries the class-level hooks
+    base = type('BaseRes', (), {n: f for n, f in fns.items() if n in inherit})
+    for kind, hid in reversed(list(script.get('hooks_base', ()))):
+        base = deco(kind, hid)(base)
+    cls = type('Res', (base,), {n: f for n, f in fns.items() if n not in inherit})
     for kind, hid in reversed(list(script.get('hooks_class', ()))):
         cls = deco(kind, hid)(cls)
     falsy_cls = type('FalsyRes', (cls,), {'__len__': lambda self: 0})      # e.g. an empty collection resource
@@ -378,6 +384,7 @@ def _mismatch_kind(got, want):
 def script_key(script):
     return (script['independent'], tuple(tuple(sorted(c.items(), key=str)) for c in script['comps']),
             tuple(map(tuple, script.get('hooks_class', ()))), tuple(map(tuple, script.get('hooks_method', ()))),
+            tuple(sorted(script.get('inherit', ()))), tuple(map(tuple, script.get('hooks_base', ()))),
             script.get('ctor'), script.get('add_single'))
 
 
@@ -405,10 +412,8 @@ def reachable_sites(script, kind):
         for m in METHODS:
             if c.get(m):
                 sites.append('M%d.%s' % (i, m))
-    if kind in ('route', 'falsy'):
-        hooks = list(script['hooks_class']) + list(script['hooks_method'])
-    elif kind in ('field', 'suffix'):
-        hooks = list(script['hooks_class'])
+    if kind in ('route', 'falsy', 'field', 'suffix'):
+        hooks = M.responder_hooks(script, M.KINDS[kind][3])
     else:
         hooks = []
     if kind in ('route', 'falsy', 'field', 'suffix'):
@@ -449,14 +454,16 @@ def placements(sites, max_faults, reduced_from=2):
                         yield actions, list(has)
 
 
-EXH_HOOKS = {'hooks_class': [['before', 0]], 'hooks_method': [['after', 1], ['before', 2]]}
+# class-level after innermost on a class that inherits on_get / on_get_items and defines on_get_f itself
+EXH_HOOKS = {'hooks_class': [['before', 0], ['after', 3]], 'hooks_method': [['after', 1], ['before', 2]],
+             'inherit': ['on_get', 'on_get_items'], 'hooks_base': []}
 EXH_KINDS = ('route', 'sink', 'unrouted', 'nomethod', 'options', 'field')
 
 
 def exhaustive_plan(tier):
     """[(max components, {kind: (max faults, number of faults from which the reduced action set is used)})]"""
     if tier == 'quick':
-        return [(2, {'route': (2, 2), 'sink': (2, 2), 'unrouted': (1, 2), 'nomethod': (1, 2), 'options': (1, 2),
+        return [(2, {'route': (2, 2), 'sink': (1, 2), 'unrouted': (1, 2), 'nomethod': (1, 2), 'options': (1, 2),
                      'field': (1, 2), 'suffix': (1, 2), 'falsy': (1, 2)})]
     return [(2, {'route': (3, 3), 'sink': (2, 3), 'unrouted': (2, 3), 'nomethod': (2, 3), 'options': (2, 3),
                  'field': (2, 3), 'suffix': (1, 2), 'falsy': (2, 3)}),
@@ -488,8 +495,9 @@ def exhaustive(rec):
         if rec.shard == 0:
             rec.note('exhaustive: all stacks of <= %d components x every non-empty subset of the 3 methods x both '
                      'independent_middleware values x both stacks x every fault placement per request kind '
-                     '(max faults, reduced action set from) = %r (fixed hook stack: class before; method after, '
-                     'before)' % (maxcomp, plan))
+                     '(max faults, reduced action set from) = %r (fixed hook stack: class before, after; method '
+                     'after, before on on_get; on_get and on_get_items inherited from an undecorated base class)'
+                     % (maxcomp, plan))
     rec.exhaustive = True
 
 
@@ -510,10 +518,12 @@ def random_script(rng):
                 break
         comps.append(c)
     hid = itertools.count()
-    hooks_class = [[rng.choice(['before', 'after']), next(hid)] for _ in range(rng.choice([0, 0, 1, 2]))]
+    hooks_class = [[rng.choice(['before', 'after']), next(hid)] for _ in range(rng.choice([0, 0, 1, 1, 2, 3]))]
     hooks_method = [[rng.choice(['before', 'after']), next(hid)] for _ in range(rng.choice([0, 1, 2, 3, 4]))]
+    inherit = [nm for nm in ('on_get', 'on_get_f', 'on_get_items') if rng.random() < 0.5]
+    hooks_base = [[rng.choice(['before', 'after']), next(hid)] for _ in range(rng.choice([0, 0, 1, 2]))] if inherit else []
     script = {'independent': rng.random() < 0.5, 'comps': comps, 'hooks_class': hooks_class,
-              'hooks_method': hooks_method}
+              'hooks_method': hooks_method, 'inherit': inherit, 'hooks_base': hooks_base}
     if n and rng.random() < 0.3:
         script['ctor'] = rng.randrange(0, n)
         script['add_single'] = rng.random() < 0.5
@@ -683,7 +693,9 @@ def set_floors(rec):
                   'raise.resp.then_more', 'raise.before', 'raise.after', 'after.skipped',
                   'dependent.req_raise', 'dependent.resp_dropped', 'dependent.second_resp_fault',
                   'second_resp_fault', 'responder.on_get', 'responder.on_get_f', 'responder.on_get_items',
-                  'responder.sink', 'responder.404', 'responder.405', 'responder.auto_options'):
+                  'responder.sink', 'responder.404', 'responder.405', 'responder.auto_options',
+                  'inherit.class_before', 'inherit.class_after', 'inherit.class_after_innermost',
+                  'inherit.base_hook', 'own.class_hook'):
             rec.floor('cls.%s.%s' % (stack, c), 20)
         for k in REQUESTS:
             rec.floor('kind.%s.%s' % (stack, k), 50)
